@@ -587,6 +587,29 @@ fn failed_line_relation(rep: &mut Report, seed: u64) {
     for n in [50usize, 200, 254] {
         big.push((format!("f({}1 / 0)", "f(".repeat(n)), None));
     }
+    let known = load_known_findings();
+    // declarations whose initialiser fails: the name must stay unknown to later lines (which read it, test its type, declare
+    // something else first, or declare it for real)
+    for failing in ["stel p = 1 / 0", "stel p = int(\"abc\")", "stel p = rij[5]", "stel p = f(1, 2)"] {
+        for tail in [vec!["p"], vec!["stel q = 2", "p"], vec!["stel q = 2", "type(p)"], vec!["stel q = 2", "print(\"voor\"); p + 1"], vec!["stel p = 3", "p"], vec!["functie g() { p }", "stel q = 1", "g()"]] {
+            rep.eval();
+            rep.count("failed-line-relation");
+            rep.nontrivial(&format!("{failing} | {tail:?}"));
+            if let Err(f) = relation_case(failing, None, &tail) {
+                // the known finding is exactly this: the name is left declared, with no value. If the later lines show what
+                // they show after `stel p = <null>`, that is it; anything else (another value in p, a crash) is a new violation
+                let as_if_declared_null = relation_case(failing, Some("stel p = als nee { 1 }"), &tail).is_ok();
+                if as_if_declared_null && crate::difftest::known_match(&known, "C17", &f.0, &f.1) {
+                    rep.count("excluded_by_known_finding");
+                } else if as_if_declared_null {
+                    rep.violation(Violation { property: "C17".into(), driver: "failed-line-relation".into(), class: f.0, case: f.1, expected: f.2, observed: f.3 });
+                } else {
+                    // (a class of its own, so that the known finding's line in known-findings.txt does not cover it)
+                    rep.violation(Violation { property: "C17".into(), driver: "failed-line-relation".into(), class: "failed-declaration-leaves-more-than-its-name".into(), case: f.1, expected: f.2, observed: f.3 });
+                }
+            }
+        }
+    }
     for (failing, same_as) in big.iter().map(|(a, b)| (a.as_str(), *b)).chain(FAILING_LINES) {
         // every later line directly after the failing one, and generated sequences of 2-5 later lines
         let mut tails: Vec<Vec<&str>> = LATER_LINES.iter().map(|l| vec![*l]).collect();
